@@ -331,3 +331,12 @@ Proof.
     rewrite (scan_bytes d T HT Hb rest []). reflexivity.
 Qed.
 End BlobTok.
+
+Lemma symbol_blob_tokens (dec2f dec2d : str -> Z) :
+  (forall s, sym_plain s = true -> tok_core dec2f dec2d (VSym s) s) /\
+  (forall o d cols t w c, Forall byte_ok d -> print_blob o d cols = (t, w, c) ->
+     tok_core dec2f dec2d (VB d) t /\ w = len t).
+Proof.
+  split; [apply tok_plainsym|]. intros o d cols t w c Hb Hp.
+  destruct (print_blob_text o d cols t w c Hp) as (T & HT & -> & Hw). split; [now apply tok_blob|exact Hw].
+Qed.
